@@ -432,18 +432,21 @@ def validate_trace(ctx, module, cfg, events, what, env=None, nexec=None, key="tr
     ctx.transitions += r.generated
     ctx.cmds.append(r.cmd)
     if nexec is None:
-        nexec = sum(1 for ev in events if ev.get("e") == "Reset")
-    if r.violation == "NotAccepted":
+        nexec = sum(1 for ev in events if ev.get("e") == "Reset" or ev.get("op") == "Reset")
+    ml = [int(x) for x in re.findall(r'"MAXL", (\d+)', r.out)]
+    l = max(ml) if ml else 0
+    if r.violation:
+        ctx.violation("trace-invariant:" + r.violation, "%s: invariant %s of the specification is violated on a recorded execution (event %d)" % (what, r.violation, l - 1),
+                      {"events": events[max(0, l - 8):l], "tlc": counterexample(r)[-3000:]})
+        return r
+    if l == len(events) + 1:
         ctx.traces += nexec
         ctx.evaluations += len(events)
         log("%s: %d recorded executions (%d events) accepted by %s" % (what, nexec, len(events), module))
+        r.accepted = True
         return r
-    if r.violation and r.violation != "NotAccepted":
-        ctx.violation("trace-invariant:" + r.violation, "%s: invariant %s of the specification is violated on a recorded execution" % (what, r.violation),
-                      {"tlc": counterexample(r)[-4000:]})
-        return r
-    ml = [int(x) for x in re.findall(r'"MAXL", (\d+)', r.out)]
-    l = max(ml) if ml else 0
+    r.accepted = False
+    r.stuck_at = l
     bad = events[l - 1] if 0 < l <= len(events) else None
     ctx.violation(key, "%s: event %d is not a step of the specification: %s" % (what, l, json.dumps(bad)[:800]),
                   {"events": events[max(0, l - 8):l + 1], "index": l})
